@@ -250,9 +250,9 @@ def stream_nodes(ctx: Ctx) -> Stream:
 	rng = ctx.sub_rng('span-nodes')
 	pr = Project(ctx)
 	mods = [pr.add_source(f'gen.corpus{k}', src, f'corpus:{name}') for k, (name, src) in enumerate(corpus_modules())]  # replayed first
-	mods += [pr.add_generated(rng, i, eof_variant=(i % 10 == 3)) for i in range(ctx.scale(30, 200))]
+	mods += [pr.add_generated(rng, i, eof_variant=(i % 10 == 3)) for i in range(ctx.scale(24, 200))]
 	mods += [pr.add_real(mp) for mp in real_modules(ctx, rng, ctx.scale(4, 40))]
-	per_module = ctx.scale(60, 100)
+	per_module = ctx.scale(50, 100)
 	cases = []
 	for mp in diskproj.bounded(mods, *diskproj.budgets(ctx)):
 		cold_sexp: tuple[str, int] | None = None
@@ -385,7 +385,7 @@ def stream_hull(ctx: Ctx) -> Stream:
 	app = common.MemApp(ctx.tmpdir())
 	parser = app.resolve(SyntaxParser)
 	sources: list[tuple[str, str]] = []
-	for i in range(ctx.scale(40, 300)):
+	for i in range(ctx.scale(32, 300)):
 		src, d = pygen.gen_module(rng)
 		label = f"generated#{i}:{d['unit']}"
 		if i % 5 == 2:
@@ -959,7 +959,7 @@ def search_spans(ctx: Ctx) -> tuple[SearchResult, SearchResult]:
 	mods: list[str] = []
 	for k, (name, src) in enumerate(corpus_modules()):
 		mods.append(pr.add_source(f'gen.corpus{k}', src, f'corpus:{name}'))
-	n_gen = ctx.scale(60, 600)
+	n_gen = ctx.scale(48, 600)
 	for i in range(n_gen):
 		mods.append(pr.add_generated(rng, i, eof_variant=(i % 6 == 1), cr_variant=(i % 6 == 3)))
 	for k, src in enumerate(c15.STATEMENT_FREE):
@@ -999,7 +999,7 @@ def search_spans(ctx: Ctx) -> tuple[SearchResult, SearchResult]:
 					cold_spans = spans
 			except Exception as e:  # noqa: BLE001
 				add_finding(res, pr.labels[mp], f'span-raises:{exc_enum(e)}', 'file_input', suffix, f'reading the spans raises {exc_enum(e)}', {'module': pr.labels[mp], 'source': pr.sources[mp][:20000]})
-			sampled = check_quotations(pr, mp, ep, rng, ctx.scale(40, 60), resq, suffix, sampled if restored else None)
+			sampled = check_quotations(pr, mp, ep, rng, ctx.scale(32, 60), resq, suffix, sampled if restored else None)
 			kind = pr.labels[mp].split('#')[0].split(':')[0] if mp.startswith('gen.') else 'real'
 			res.histogram[kind + suffix] = res.histogram.get(kind + suffix, 0) + 1
 		if cold_spans and (mp.startswith('gen.free') or (mp.startswith('gen.m') and int(mp[5:]) % 3 == 1)):
@@ -1025,7 +1025,7 @@ def search_spans(ctx: Ctx) -> tuple[SearchResult, SearchResult]:
 				check_tree(label, new_src, root, literals, res, '', grammar)
 			except Exception as e:  # noqa: BLE001
 				add_finding(res, label, f'span-raises:{exc_enum(e)}', 'file_input', '', f'reading the spans raises {exc_enum(e)}', {'module': label, 'source': new_src[:20000]})
-			check_quotations(pr, mp, ep, rng, ctx.scale(40, 60), resq, '')
+			check_quotations(pr, mp, ep, rng, ctx.scale(32, 60), resq, '')
 			res.histogram['edited-after-caching'] = res.histogram.get('edited-after-caching', 0) + 1
 		if len(res.samples) < 2:
 			res.samples.append({'module': pr.labels[mp], 'bytes': len(pr.sources[mp])})
